@@ -571,7 +571,11 @@ class Buildable(Generic[T], metaclass=abc.ABCMeta):
     Returns:
       A list of useful attribute names corresponding to set or unset parameters.
     """
-    set_argument_names = self.__arguments__.keys()
+    # Positional-only and variadic positional arguments are stored under
+    # integer keys; they are not attributes.
+    set_argument_names = {
+        name for name in self.__arguments__ if isinstance(name, str)
+    }
     valid_param_names = set(self.__signature_info__.valid_param_names)
     all_names = valid_param_names.union(set_argument_names)
     return all_names
